@@ -1,5 +1,5 @@
 import Qryn.Proofs.LogQLMetric
-import Qryn.Proofs.MetricPlan
+import Qryn.Proofs.MetricCompose
 /-! # C08 — the SQL generated for LogQL metric queries computes the defined aggregates
 
 Model: `LogQL.planMetric` (tied byte-for-byte to the real planner's SQL text by the `text` stream, its step
@@ -339,6 +339,20 @@ theorem plan_metric_correct_agg (o : Oracles) (c : MCtx) (hn : c.namesOk) (d : L
     (hs : takesShortcut (.agg a) = false) (hstep : c.stepNs ≤ (a.inner.durNs : Int)) :
     (evalSelA o (d.toDbM c) (planMetric c (.agg a))).map normRow = evalMetric o c d (.agg a) :=
   planMetric_agg_lra o c hn d a fn g hk hg hfn hm hms hd hs hstep
+
+/-- **plan_metric_correct on the samples path, every query shape.** `q` is any metric query whose range aggregation is
+    rate / count_over_time / bytes_rate / bytes_over_time and does not take the metrics_15s shortcut: the range
+    aggregation alone, under sum/min/max/avg/count with a grouping clause, under topk/bottomk (of either), with a
+    comparison after any of them; the step may be smaller or larger than the range (`StepFixPlanner` planned or not).
+    Hypotheses: at most 63 matchers, the range a positive whole number of milliseconds, a vector aggregation has a
+    grouping clause (`aggOk`; without one the plan keeps one series per stream — finding
+    C08/agg-without-grouping-keeps-streams) and is not stddev/stdvar. Then the generated statement, under the
+    documented SQL semantics, returns exactly the matrix of the direct reading. -/
+theorem plan_metric_correct_samples_path (o : Oracles) (c : MCtx) (hn : c.namesOk) (d : LokiDb) (q : MetricQuery) (fn : RangeFn)
+    (hk : q.rangeAgg.kind = .lra fn) (hs : takesShortcut q = false) (hok : aggOk q)
+    (hm : q.rangeAgg.sel.matchers.length ≤ 63) (hms : 1000000 ∣ q.rangeAgg.durNs) (hd : 0 < q.rangeAgg.durNs) :
+    (evalSelA o (d.toDbM c) (planMetric c q)).map normRow = evalMetric o c d q :=
+  planMetric_lra o c hn d q fn hk hs hok hm hms hd
 
 /-! ## non-vacuity -/
 example : LraRows [[("_string", .str [97, 98])]] [⟨1, 5, [97, 98], 1⟩] := by unfold LraRows; decide
